@@ -431,8 +431,9 @@ example : pearson Real.sqrt ([1, 2, 4] : List ℝ) [1, 0, 0] = -(4 / 3) / Real.s
   unfold pearson
   rw [h1, h2]
 
-/-- `correlation_driver_sound` with every hypothesis instantiated over ℚ: the
-    same matrices, 2 chunks handed out in the order 1, 0 -/
+/-- the hypotheses of `correlation_driver_sound` and the model's run, evaluated
+    by the kernel over ℚ (the theorem itself is APPLIED in the two examples
+    after this one): the same matrices, 2 chunks handed out in the order 1, 0 -/
 example :
     AllPos ([[.fin 1, .fin 0], [.fin 2, .fin 1], [.fin 4, .fin 0]] : List (List (Ext ℚ)))
       [[.fin 1, .fin 3], [.fin 0, .fin 3], [.fin 0, .fin 5]] ∧
@@ -442,6 +443,40 @@ example :
       = .ok [[some (4 / 7, -1), some (25 / 28, 1)], [some (1 / 4, -1), some (1 / 4, -1)]] := by
   unfold AllPos
   decide +kernel
+
+def exSemQ : List (List (Ext ℚ)) := [[.fin 1, .fin 0], [.fin 2, .fin 1], [.fin 4, .fin 0]]
+def exActQ : List (List (Ext ℚ)) := [[.fin 1, .fin 3], [.fin 0, .fin 3], [.fin 0, .fin 5]]
+
+theorem exAllPosQ : AllPos exSemQ exActQ := by
+  unfold AllPos
+  decide +kernel
+
+/-- `correlation_driver_sound` APPLIED (every hypothesis instantiated: chunk size
+    1, the two chunks in the order 1, 0 — a permutation of `range 2` —, equal
+    row counts, 3 ≥ 2 rows, no degenerate column), clause 1: what the compiled
+    model returns … -/
+example :
+    correlation (0, 0) execCell false exSemQ exActQ 1 [1, 0]
+      = .ok (directMat (fun jj ii =>
+          some (execCell (finCol (colOf .nan exSemQ jj)) (finCol (colOf .nan exActQ ii))))
+          (nCols exSemQ) (nCols exActQ)) :=
+  (correlation_driver_sound exSemQ exActQ false 1 (by decide) [1, 0] (by decide +kernel) rfl (by decide +kernel)
+    exAllPosQ).1
+
+/-- … and clause 3 for the cell (0, 0): the driver prints `(4/7, -1)`, hence
+    Pearson's r of the columns `(1,2,4)`, `(1,0,0)` over ℝ has square 4/7 and
+    is negative (it is −2/√7) -/
+example :
+    let v := pearson Real.sqrt ((finCol (colOf .nan exSemQ 0)).map (Rat.castHom ℝ))
+      ((finCol (colOf .nan exActQ 0)).map (Rat.castHom ℝ))
+    v * v = (((4 / 7 : ℚ)) : ℝ) ∧ v < 0 := by
+  intro v
+  have h := (correlation_driver_sound exSemQ exActQ false 1 (by decide) [1, 0] (by decide +kernel) rfl
+    (by decide +kernel) exAllPosQ).2.2 0 (by decide +kernel) 0 (by decide +kernel)
+  have hq : execCell (finCol (colOf .nan exSemQ 0)) (finCol (colOf .nan exActQ 0)) = (4 / 7, -1) := by
+    decide +kernel
+  simp only [hq] at h
+  exact ⟨h.1, h.2.2.mpr (by norm_num)⟩
 
 /-- a schedule with 3 chunks of size 2 handed out in the order 2, 0, 1 -/
 example : prangeChunks 5 2 = [[0, 1], [2, 3], [4]] ∧
